@@ -1203,8 +1203,13 @@ func (fr *Frame) appendBuiltin(st *State, site ssa.Instruction, cc *ssa.CallComm
 				unsup("append of symbolic window of concrete array")
 			}
 			off, n := int(src.Off.K.Int64()), int(src.Len.K.Int64())
-			var r *Term = F.I64(0)
+			// the chain ends in the last element (any sort: the guard dst.Len <= j < nl makes the default unreachable)
+			var r *Term
 			for k := n - 1; k >= 0; k-- {
+				if r == nil {
+					r = sc.Elems[off+k].(*Term)
+					continue
+				}
 				r = F.Ite(F.Eq(jv, F.Add(dst.Len, F.I64(int64(k)))), sc.Elems[off+k].(*Term), r)
 			}
 			ssel = r
